@@ -2,6 +2,7 @@ package checks
 
 import (
 	"fmt"
+	"k8s.io/apimachinery/pkg/api/resource"
 	"sort"
 	"strings"
 	"time"
@@ -88,10 +89,14 @@ func c11Pod(name, node string, kind string) *corev1.Pod {
 	return p
 }
 
-func mut(name string, keys []ckey, do func(x *c11Run)) c11Step { return c11Step{name: name, do: do, keys: keys} }
+func mut(name string, keys []ckey, do func(x *c11Run)) c11Step {
+	return c11Step{name: name, do: do, keys: keys}
+}
 
-func addObj(o client.Object) func(x *c11Run)    { return func(x *c11Run) { x.w.Add(o.DeepCopyObject().(client.Object)) } }
-func delObj(o client.Object) func(x *c11Run)    { return func(x *c11Run) { x.w.EnvDelete(o) } }
+func addObj(o client.Object) func(x *c11Run) {
+	return func(x *c11Run) { x.w.Add(o.DeepCopyObject().(client.Object)) }
+}
+func delObj(o client.Object) func(x *c11Run) { return func(x *c11Run) { x.w.EnvDelete(o) } }
 func updNode(name string, f func(n *corev1.Node)) func(x *c11Run) {
 	return func(x *c11Run) {
 		if n := x.w.GetNode(name); n != nil {
@@ -205,6 +210,56 @@ var c11Scripts = map[string][]c11Step{
 		mut("C1 starts deleting", []ckey{claimKey("c1")}, updClaim("c1", func(n *v1.NodeClaim) { dt := metaT(world.Epoch); n.DeletionTimestamp = &dt })),
 		mut("unmark pid1", nil, func(x *c11Run) { x.inf.Cluster.UnmarkForDeletion("pid1"); delete(x.marks, "pid1") }),
 		mut("N2 label update", []ckey{nodeKey("n2")}, updNode("n2", func(n *corev1.Node) { n.Labels["x"] = "y" })),
+	},
+	// a pod that was already counted CHANGES in place (same name, same node): its deletion cost is set later, it is resized,
+	// and it is replaced by a different pod of the same name on the same node with the deletion never observed
+	"pod-changed-after-it-was-counted": {
+		mut("C1+N1", []ckey{claimKey("c1"), nodeKey("n1")}, func(x *c11Run) { addObj(c11Claim("c1", "a", "pid1"))(x); addObj(c11Node("n1", "a", "pid1", true))(x) }),
+		mut("bind P1 to N1", []ckey{podKey("p1")}, func(x *c11Run) { addObj(c11Pod("p1", "n1", "hostport"))(x) }),
+		mut("P1 gets a deletion cost", []ckey{podKey("p1")}, updPod("p1", func(p *corev1.Pod) {
+			if p.Annotations == nil {
+				p.Annotations = map[string]string{}
+			}
+			p.Annotations[corev1.PodDeletionCost] = "134217728"
+		})),
+		mut("P1 resized to 1400m", []ckey{podKey("p1")}, updPod("p1", func(p *corev1.Pod) {
+			p.Spec.Containers[0].Resources.Requests[corev1.ResourceCPU] = resource.MustParse("1400m")
+		})),
+		mut("P1 replaced by another pod of the same name on N1 (deletion coalesced)", []ckey{podKey("p1")}, func(x *c11Run) {
+			old := &corev1.Pod{}
+			if err := x.w.Raw.Get(x.w.Ctx, clientKey("default", "p1"), old); err == nil {
+				x.w.EnvDelete(old)
+			}
+			np := c11Pod("p1", "n1", "cost")
+			np.UID = "pod-p1-second"
+			np.Spec.Containers[0].Resources.Requests[corev1.ResourceCPU] = resource.MustParse("300m")
+			x.w.Add(np)
+		}),
+	},
+	// two pods on one node mount the SAME claim; one of them goes away: the volume stays attached for the other
+	"shared-pvc-one-pod-deleted": {
+		mut("C1+N1 with CSINode limit 1", []ckey{claimKey("c1"), nodeKey("n1")}, func(x *c11Run) {
+			addObj(c11Claim("c1", "a", "pid1"))(x)
+			one := int32(1)
+			x.w.Add(&storagev1.CSINode{ObjectMeta: metav1.ObjectMeta{Name: "n1"}, Spec: storagev1.CSINodeSpec{Drivers: []storagev1.CSINodeDriver{{Name: "csi.x", NodeID: "n1", Allocatable: &storagev1.VolumeNodeResources{Count: &one}}}}})
+			addObj(c11Node("n1", "a", "pid1", true))(x)
+		}),
+		mut("bind two pods sharing one claim to N1", []ckey{podKey("pv1"), podKey("pv2")}, func(x *c11Run) {
+			sc := "sc"
+			x.w.Add(&storagev1.StorageClass{ObjectMeta: metav1.ObjectMeta{Name: sc}, Provisioner: "csi.x"},
+				&corev1.PersistentVolumeClaim{ObjectMeta: metav1.ObjectMeta{Name: "claim", Namespace: "default"}, Spec: corev1.PersistentVolumeClaimSpec{StorageClassName: &sc}})
+			for _, n := range []string{"pv1", "pv2"} {
+				p := c11Pod(n, "n1", "cost")
+				pvcVol("claim")(p)
+				x.w.Add(p)
+			}
+		}),
+		mut("pv1 deleted", []ckey{podKey("pv1")}, func(x *c11Run) {
+			p := &corev1.Pod{}
+			must(x.w.Raw.Get(x.w.Ctx, clientKey("default", "pv1"), p))
+			x.w.EnvDelete(p)
+		}),
+		mut("C1 status update", []ckey{claimKey("c1")}, updClaim("c1", func(n *v1.NodeClaim) { n.StatusConditions().SetTrue(v1.ConditionTypeRegistered) })),
 	},
 	"csinode-limit-and-pvc": {
 		mut("C1+N1 with CSINode limit 1", []ckey{claimKey("c1"), nodeKey("n1")}, func(x *c11Run) {
@@ -427,7 +482,7 @@ func init() {
 			names = append(names, n)
 		}
 		sort.Strings(names)
-		r.Rule = fmt.Sprintf("%d mutation scripts (launch / provider-id set late / pods completing, deleted, recreated under the same name elsewhere / Node and NodeClaim deletions in both orders / explicit deletion marks and deleting claims, a mark rolled back after the deletion was observed / CSINode limits / two pools) are applied to the API; after every mutation each notified key is either delivered to the REAL informer reconciler at once (default) or deferred, and earlier keys may be re-delivered (duplicates); all delivery histories with <=%d such deviations are explored, each ending with the delivery of the still-unobserved keys in each of 12 orders (6 kind orders x 2 key orders, level-triggered retries). "+
+		r.Rule = fmt.Sprintf("%d mutation scripts (launch / provider-id set late / pods completing, deleted, recreated under the same name elsewhere / Node and NodeClaim deletions in both orders / explicit deletion marks and deleting claims, a mark rolled back after the deletion was observed / CSINode limits, two pods sharing one claim of which one is deleted, a counted pod changing in place (deletion cost, resize, replaced under the same name on the same node) / two pools) are applied to the API; after every mutation each notified key is either delivered to the REAL informer reconciler at once (default) or deferred, and earlier keys may be re-delivered (duplicates); all delivery histories with <=%d such deviations are explored, each ending with the delivery of the still-unobserved keys in each of 12 orders (6 kind orders x 2 key orders, level-triggered retries). "+
 			"Oracle, evaluated at EVERY point where the latest version of every object has been observed (not only at the end): the cache observed through exported accessors must equal (1) a fresh cache fed the final objects claims-first and (2) one fed nodes-and-pods-first, and (3) an independent recomputation of node set, per-node pod/daemon cpu, disruption cost, deletion marks and per-pool totals from the API objects. states = quiescent points checked; non-trivial = distinct (script, delivery history)", len(names), bound)
 		r.Assumptions = []string{"deliveries are atomic (no preemption inside an informer reconcile)", "explicit deletion marks are in-memory inputs; the reference tracks them by provider id"}
 		enum.RunEveryShard(r, int64(len(names)), func(i int64, l *ev.Local) {
@@ -452,150 +507,150 @@ func c11MakeExec(name string, l *ev.Local, bound int) func(run *explore.Run) {
 	perms := permutations(3)
 	_, _ = kinds, perms
 	return func(run *explore.Run) {
-				l.Mute = run.Replica
-				w := world.New(world.Options{})
-				w.CP.Catalog[""] = world.BuildCatalog(K1)
-				w.Add(world.NodeClass(), world.NodePool("a"), world.NodePool("b"))
-				x := &c11Run{w: w, inf: w.NewInformers(w.Cluster), marks: map[string]bool{}, keys: map[ckey]bool{}}
-				pending := map[ckey]bool{}
-				deliver := func(k ckey, verb string) {
-					requeue, err := x.inf.DeliverR(k.kind, k.ns, k.name)
-					x.history = append(x.history, verb+" "+k.kind+"/"+k.name)
-					if requeue || err != nil {
-						pending[k] = true // level-triggered: the controller will retry this key
-					} else {
-						delete(pending, k)
-					}
+		l.Mute = run.Replica
+		w := world.New(world.Options{})
+		w.CP.Catalog[""] = world.BuildCatalog(K1)
+		w.Add(world.NodeClass(), world.NodePool("a"), world.NodePool("b"))
+		x := &c11Run{w: w, inf: w.NewInformers(w.Cluster), marks: map[string]bool{}, keys: map[ckey]bool{}}
+		pending := map[ckey]bool{}
+		deliver := func(k ckey, verb string) {
+			requeue, err := x.inf.DeliverR(k.kind, k.ns, k.name)
+			x.history = append(x.history, verb+" "+k.kind+"/"+k.name)
+			if requeue || err != nil {
+				pending[k] = true // level-triggered: the controller will retry this key
+			} else {
+				delete(pending, k)
+			}
+		}
+		checkpoints := 0
+		checkpoint := func() {
+			checkpoints++
+			got := digestCluster(w, w.Cluster)
+			fresh := func(order []string) []string {
+				c := state.NewCluster(w.Clock, w.Client, w.CP)
+				inf := w.NewInformers(c)
+				x.deliverAll(inf, order, false)
+				for pid := range x.marks {
+					c.MarkForDeletion(pid)
 				}
-				checkpoints := 0
-				checkpoint := func() {
-					checkpoints++
-					got := digestCluster(w, w.Cluster)
-					fresh := func(order []string) []string {
-						c := state.NewCluster(w.Clock, w.Client, w.CP)
-						inf := w.NewInformers(c)
-						x.deliverAll(inf, order, false)
-						for pid := range x.marks {
-							c.MarkForDeletion(pid)
-						}
-						return digestCluster(w, c)
-					}
-					report := func(sig, what string, have, want []string) {
-						l.Violation(sig, fmt.Sprintf("%s  [script=%s history=%v]\n cache: %v\n  want: %v", what, name, x.history, diffLines(have, want), diffLines(want, have)), map[string]any{"script": name, "choices": run.Choices(), "history": append([]string{}, x.history...), "cache": have, "expected": want})
-					}
-					f1 := fresh([]string{"NodeClaim", "Node", "Pod"})
-					f2 := fresh([]string{"Node", "Pod", "NodeClaim"})
-					if strings.Join(f1, "\n") != strings.Join(f2, "\n") {
-						report("fresh recomputation depends on the order objects are fed "+fieldDiff(f2, f1), "two from-scratch computations (claims-first vs nodes-and-pods-first) disagree", f2, f1)
-					}
-					if strings.Join(got, "\n") != strings.Join(f1, "\n") {
-						report("cache differs from a fresh recomputation "+fieldDiff(got, f1), "every latest version has been observed, yet the cluster cache differs from a fresh cache fed the same objects", got, f1)
-					}
-					ref := c11Reference(x)
-					if gv := refView(got); strings.Join(gv, "\n") != strings.Join(ref, "\n") {
-						report("cache differs from the API-derived reference "+fieldDiff(gv, ref), "every latest version has been observed, yet the cluster cache differs from an independent recomputation from the API objects", gv, ref)
-					}
-				}
-				for _, st := range script {
-					st.do(x)
-					x.history = append(x.history, st.name)
-					for _, k := range st.keys {
-						x.keys[k] = true
-						pending[k] = true
-					}
-					for _, k := range st.keys {
-						if run.Choose("deliver", 2, nil) == 0 {
-							deliver(k, "deliver")
-						} else {
-							x.history = append(x.history, "defer "+k.kind+"/"+k.name)
-						}
-					}
-					// optional: one deferred or duplicate delivery now (0 = none)
-					var cands []ckey
-					for k := range x.keys {
-						cands = append(cands, k)
-					}
-					sort.Slice(cands, func(a, b int) bool { return cands[a].kind+cands[a].name < cands[b].kind+cands[b].name })
-					if k := run.Choose("extra-delivery", len(cands)+1, nil); k > 0 {
-						deliver(cands[k-1], "redeliver")
-					}
-					// keys that asked for a retry are retried once their turn comes; give them one round now
-					for round := 0; round < 2 && len(pending) > 0; round++ {
-						var retry []ckey
-						for k := range pending {
-							retry = append(retry, k)
-						}
-						sort.Slice(retry, func(a, b int) bool { return retry[a].kind+retry[a].name < retry[b].kind+retry[b].name })
-						progressed := false
-						for _, k := range retry {
-							deferred := false
-							for _, h := range x.history {
-								if h == "defer "+k.kind+"/"+k.name {
-									deferred = true
-								}
-							}
-							if deferred {
-								continue // explicitly deferred keys wait for the final phase
-							}
-							before := len(pending)
-							deliver(k, "retry")
-							if len(pending) < before {
-								progressed = true
-							}
-						}
-						if !progressed {
-							break
-						}
-					}
-					if len(pending) == 0 {
-						checkpoint()
-					}
-				}
-				// final phase: only the keys whose latest version has not been observed yet, in every kind order
-				if len(pending) > 0 {
-					fo := 0
-					if len(pending) > 1 {
-						fo = run.Choose("final-order", len(perms)*2, func(int) int { return 0 })
-					}
-					order := []string{kinds[perms[fo/2][0]], kinds[perms[fo/2][1]], kinds[perms[fo/2][2]]}
-					rank := map[string]int{}
-					for q, k := range order {
-						rank[k] = q
-					}
-					for round := 0; round < 4 && len(pending) > 0; round++ {
-						var ks []ckey
-						for k := range pending {
-							ks = append(ks, k)
-						}
-						sort.Slice(ks, func(a, b int) bool {
-							if rank[ks[a].kind] != rank[ks[b].kind] {
-								return rank[ks[a].kind] < rank[ks[b].kind]
-							}
-							if fo%2 == 1 {
-								return ks[a].name > ks[b].name
-							}
-							return ks[a].name < ks[b].name
-						})
-						for _, k := range ks {
-							deliver(k, "final")
-						}
-					}
-					if len(pending) == 0 {
-						checkpoint()
-					} else {
-						l.Outcome("keys still asking for a retry at the horizon")
-					}
-				}
-				got := digestCluster(w, w.Cluster)
-				l.Eval()
-				l.Trace()
-				l.States += int64(checkpoints)
-				l.Nontrivial(name + "/" + strings.Join(x.history, ","))
-				l.Outcome(strings.Join(got, " | "))
-				if run.Used == bound && len(x.history)%11 == 0 {
-					l.Sample(map[string]any{"script": name, "history": x.history, "cache": got})
+				return digestCluster(w, c)
+			}
+			report := func(sig, what string, have, want []string) {
+				l.Violation(sig, fmt.Sprintf("%s  [script=%s history=%v]\n cache: %v\n  want: %v", what, name, x.history, diffLines(have, want), diffLines(want, have)), map[string]any{"script": name, "choices": run.Choices(), "history": append([]string{}, x.history...), "cache": have, "expected": want})
+			}
+			f1 := fresh([]string{"NodeClaim", "Node", "Pod"})
+			f2 := fresh([]string{"Node", "Pod", "NodeClaim"})
+			if strings.Join(f1, "\n") != strings.Join(f2, "\n") {
+				report("fresh recomputation depends on the order objects are fed "+fieldDiff(f2, f1), "two from-scratch computations (claims-first vs nodes-and-pods-first) disagree", f2, f1)
+			}
+			if strings.Join(got, "\n") != strings.Join(f1, "\n") {
+				report("cache differs from a fresh recomputation "+fieldDiff(got, f1), "every latest version has been observed, yet the cluster cache differs from a fresh cache fed the same objects", got, f1)
+			}
+			ref := c11Reference(x)
+			if gv := refView(got); strings.Join(gv, "\n") != strings.Join(ref, "\n") {
+				report("cache differs from the API-derived reference "+fieldDiff(gv, ref), "every latest version has been observed, yet the cluster cache differs from an independent recomputation from the API objects", gv, ref)
+			}
+		}
+		for _, st := range script {
+			st.do(x)
+			x.history = append(x.history, st.name)
+			for _, k := range st.keys {
+				x.keys[k] = true
+				pending[k] = true
+			}
+			for _, k := range st.keys {
+				if run.Choose("deliver", 2, nil) == 0 {
+					deliver(k, "deliver")
+				} else {
+					x.history = append(x.history, "defer "+k.kind+"/"+k.name)
 				}
 			}
+			// optional: one deferred or duplicate delivery now (0 = none)
+			var cands []ckey
+			for k := range x.keys {
+				cands = append(cands, k)
+			}
+			sort.Slice(cands, func(a, b int) bool { return cands[a].kind+cands[a].name < cands[b].kind+cands[b].name })
+			if k := run.Choose("extra-delivery", len(cands)+1, nil); k > 0 {
+				deliver(cands[k-1], "redeliver")
+			}
+			// keys that asked for a retry are retried once their turn comes; give them one round now
+			for round := 0; round < 2 && len(pending) > 0; round++ {
+				var retry []ckey
+				for k := range pending {
+					retry = append(retry, k)
+				}
+				sort.Slice(retry, func(a, b int) bool { return retry[a].kind+retry[a].name < retry[b].kind+retry[b].name })
+				progressed := false
+				for _, k := range retry {
+					deferred := false
+					for _, h := range x.history {
+						if h == "defer "+k.kind+"/"+k.name {
+							deferred = true
+						}
+					}
+					if deferred {
+						continue // explicitly deferred keys wait for the final phase
+					}
+					before := len(pending)
+					deliver(k, "retry")
+					if len(pending) < before {
+						progressed = true
+					}
+				}
+				if !progressed {
+					break
+				}
+			}
+			if len(pending) == 0 {
+				checkpoint()
+			}
+		}
+		// final phase: only the keys whose latest version has not been observed yet, in every kind order
+		if len(pending) > 0 {
+			fo := 0
+			if len(pending) > 1 {
+				fo = run.Choose("final-order", len(perms)*2, func(int) int { return 0 })
+			}
+			order := []string{kinds[perms[fo/2][0]], kinds[perms[fo/2][1]], kinds[perms[fo/2][2]]}
+			rank := map[string]int{}
+			for q, k := range order {
+				rank[k] = q
+			}
+			for round := 0; round < 4 && len(pending) > 0; round++ {
+				var ks []ckey
+				for k := range pending {
+					ks = append(ks, k)
+				}
+				sort.Slice(ks, func(a, b int) bool {
+					if rank[ks[a].kind] != rank[ks[b].kind] {
+						return rank[ks[a].kind] < rank[ks[b].kind]
+					}
+					if fo%2 == 1 {
+						return ks[a].name > ks[b].name
+					}
+					return ks[a].name < ks[b].name
+				})
+				for _, k := range ks {
+					deliver(k, "final")
+				}
+			}
+			if len(pending) == 0 {
+				checkpoint()
+			} else {
+				l.Outcome("keys still asking for a retry at the horizon")
+			}
+		}
+		got := digestCluster(w, w.Cluster)
+		l.Eval()
+		l.Trace()
+		l.States += int64(checkpoints)
+		l.Nontrivial(name + "/" + strings.Join(x.history, ","))
+		l.Outcome(strings.Join(got, " | "))
+		if run.Used == bound && len(x.history)%11 == 0 {
+			l.Sample(map[string]any{"script": name, "history": x.history, "cache": got})
+		}
+	}
 }
 
 func init() {
